@@ -5,7 +5,7 @@ from props import _rel
 PID = "C04"
 PROPS_FILE = "Props/C04.v"
 PREFIX = "C04"
-KNOWN = {1: "C04-volatile-besteffort-history", 2: "C04-gap-skip-history"}
+KNOWN = {}
 RULE = ("a case is one scenario on the simulated real stack: a writer (RELIABLE or BEST_EFFORT, VOLATILE or "
         "TRANSIENT_LOCAL, KEEP_ALL / KEEP_LAST 1-3, 1-3 instances) writes 0-5 samples, then a reader of any compatible "
         "reliability/durability is created and matched (85 % late), more writes interleaved with faults on the "
@@ -17,10 +17,12 @@ gen = _rel.gen_for("C04")
 
 def corpus():
     return [
-        # C04-volatile-besteffort-history: a BEST_EFFORT VOLATILE late joiner presents the old samples
+        # the schedules that exposed C04-volatile-besteffort-history (repaired by 0faf897): a BEST_EFFORT VOLATILE late
+        # joiner is not sent the old samples any more
         parse_line(PRE % (1344, 1, 0, 0) + " ; w 0 1 10 1 ; w 0 1 10 2 ; R 0 1 rel=0 dur=0 ; netm ; q ; pu ; t 0 0 ; q"),
         parse_line(PRE % (1344, 0, 0, 0) + " ; w 0 1 10 1 ; w 0 1 10 2 ; R 0 1 rel=0 dur=0 ; netm ; w 0 1 10 3 ; pu ; t 0 0 ; q"),
-        # C04-gap-skip-history: history {1,3}, DATA(1) lost: never delivered, wait_for_historical_data completes
+        # the schedule that exposed C04-gap-skip-history (repaired by 91937ff): history {1,3}, DATA(1) lost:
+        # wait_for_historical_data completes only after 1 and 3 were delivered
         parse_line(PRE % (1344, 1, 1, 1) + " ; w 0 1 10 11 ; w 0 2 10 22 ; w 0 2 10 33 ; R 0 1 rel=1 dur=1 ; netm ; ha 0 ; q ; "
                    "dr 0 ; adv 250000000 ; pu ; adv 250000000 ; pu ; adv 250000000 ; pu ; hp ; ha 0 ; t 0 0 ; wa 0 ; q"),
         # boundary: written just before / just after the match of a RELIABLE VOLATILE reader, GAPs lost
@@ -36,14 +38,16 @@ MANIFEST = {
     "text": ("Machine-checked proofs (Coq) over the protocol model shared with C01 (add_matched_reader computing the "
              "proxy's first relevant sample from the reader's durability, the reliable and best-effort writer paths, "
              "KEEP_LAST retention, is_historical_data_received and the wait list of wait_for_historical_data). For "
-             "EVERY schedule before and after the match (all faults, all history QoS): a RELIABLE VOLATILE reader never "
+             "EVERY schedule before and after the match (all faults, all history QoS): a VOLATILE reader - RELIABLE or BEST_EFFORT - never "
              "presents a sample written before it was matched (invariant: nothing at or below the writer's last "
              "sequence number at match time is ever in flight towards the reader, buffered or presented); the "
              "boundary theorem: the first relevant sample is 0 (TRANSIENT_LOCAL) or the highest held sequence number "
-             "(VOLATILE), everything held at the match is at or below it, everything written later is above it. The "
-             "statement for every reliability kind is refuted by a witness (known finding "
-             "C04-volatile-besteffort-history); the history statement at full strength is refuted by the GAP-skip "
-             "witness (known finding C04-gap-skip-history); proved part (stage 1: KEEP_ALL writer, unfragmented samples, "
+             "(VOLATILE), everything held at the match is at or below it, everything written later is above it. (The "
+             "BEST_EFFORT half needs repair 0faf897 of the former finding C04-volatile-besteffort-history.) HISTORY is "
+             "never skipped, unbounded, every history QoS: when the test of wait_for_historical_data succeeds for a "
+             "reliable reader every retained relevant change up to the announced last sequence number has been presented "
+             "(needs repair 91937ff of the former finding C04-gap-skip-history). HISTORY is eventually complete, proved "
+             "part (stage 1: KEEP_ALL writer, unfragmented samples, "
              "no removal, no deletion, at most 256 samples): after any such schedule with a lossy catch-up and healing "
              "rounds that drain the network a reliable TRANSIENT_LOCAL reader has been given every retained change. "
              "The model is tied to the code by differential "
@@ -51,8 +55,9 @@ MANIFEST = {
              "samples written after its match; after healing a reliable TRANSIENT_LOCAL reader presented the retained "
              "history and wait_for_historical_data is answered) judges the real observations."),
     "note": ("Trusted: Coq kernel, hand model RelModel.v (correspondence-checked on every run), simulation harness, "
-             "generator. Axioms: none. Known findings C04-volatile-besteffort-history, C04-gap-skip-history. "
+             "generator. Axioms: none. Former findings C04-volatile-besteffort-history, C04-gap-skip-history are repaired "
+             "(0faf897, 91937ff); their schedules are in the corpus. "
              "Observation: wait_for_historical_data completes at once while no writer is matched (allowed by the "
              "statement). One writer/reader pair."),
-    "technique": "Coq proof (invariants over all schedules, refutation witnesses) + differential correspondence on a deterministic whole-stack simulation",
+    "technique": "Coq proof (invariants over all schedules, healing invariant) + differential correspondence on a deterministic whole-stack simulation",
 }
